@@ -65,7 +65,7 @@ class RotatorProfile(HeapProfile):
     )
 
     def tier_runs(self, tier):
-        return {"quick": 2000, "thorough": 60000}[tier]
+        return {"quick": 4000, "thorough": 100000}[tier]
 
     def draw_config(self, rng):
         return {
